@@ -5,10 +5,11 @@
 cd "$(dirname "$0")/.."
 export GOFLAGS=-mod=mod GOPROXY=off GOSUMDB=off GOTOOLCHAIN=local
 only="$1"
-wt=$(mktemp -d /tmp/gvc-selftest-XXXXXX)
+wt=$(mktemp -d /root/gvc-selftest-XXXXXX)
 git -C /repo worktree add -q --detach "$wt/repo" HEAD || exit 2
 # contracts under test are those of the working tree
-sync_contracts() { (cd /repo && find . -name contracts_verif.go) | while read f; do cp "/repo/$f" "$wt/repo/$f"; done; }
+src=${SELFTEST_CONTRACTS:-/repo}
+sync_contracts() { (cd "$src" && find . -name contracts_verif.go) | while read f; do cp "$src/$f" "$wt/repo/$f"; done; }
 fail=0; n=0
 run_one() { # patch, property
   local patch="$1" prop="$2"
@@ -16,7 +17,7 @@ run_one() { # patch, property
   if ! git -C "$wt/repo" apply "$(readlink -f "$patch")" 2>/dev/null; then echo "SKIP  $patch (does not apply)"; return; fi
   if ! (cd "$wt/repo" && go build ./... 2>/dev/null); then echo "SKIP  $patch (does not build)"; return; fi
   n=$((n+1))
-  out=$(GVC_NORETRY=1 bin/gvc check -p "$prop" -repo "$wt/repo" -evidence "$wt/evidence" 2>&1); rc=$?
+  out=$(GVC_NORETRY=1 bin/gvc check -p "$prop" -verif "$PWD" -repo "$wt/repo" -evidence "$wt/evidence" 2>&1); rc=$?
   if [ $rc -eq 1 ] && echo "$out" | grep -q "^VIOLATION property=$prop"; then
     echo "CAUGHT $prop $(basename $(dirname $patch))/$(basename $patch): $(echo "$out" | grep -c '^VIOLATION') violation lines"
   else
@@ -27,7 +28,7 @@ run_one() { # patch, property
 for prop in $(ls selftest/mutants/*.patch | xargs -n1 basename | cut -d_ -f1 | sort -u); do
   [ -n "$only" ] && [ "$only" != "$prop" ] && continue
   git -C "$wt/repo" checkout -q . ; git -C "$wt/repo" clean -qfd; sync_contracts
-  if ! GVC_NORETRY=1 bin/gvc check -p "$prop" -repo "$wt/repo" -evidence "$wt/evidence" >/dev/null 2>&1; then echo "BASELINE-FAILS $prop (without retries)"; fail=$((fail+1)); fi
+  if ! GVC_NORETRY=1 bin/gvc check -p "$prop" -verif "$PWD" -repo "$wt/repo" -evidence "$wt/evidence" >/dev/null 2>&1; then echo "BASELINE-FAILS $prop (without retries)"; fail=$((fail+1)); fi
 done
 for p in selftest/mutants/*.patch; do
   [ -e "$p" ] || continue
